@@ -351,6 +351,26 @@ def pass_through(ctx):
     ctx.ob(R, 'multitarget_rule|primary-rule-gets-all-args', ok, f.node,
            'the primary (stamp or only) rule does not receive deps/'
            'order_only/recipe/variables/phony unchanged')
+
+    def expr_(e, pos, kw):
+        x = Q.kwarg(e.call, kw)
+        if x is None and pos < len(e.call.args) and not any(
+                isinstance(a, ast.Starred) for a in e.call.args[:pos + 1]):
+            x = e.call.args[pos]
+        return x
+    bad = []
+    for e in main:
+        if e.fn is not f:
+            continue        # call sits in a helper: may-flow only (above)
+        for pos, kw in ((1, 'deps'), (2, 'order_only'), (3, 'recipe'),
+                        (4, 'variables'), (5, 'phony')):
+            x = expr_(e, pos, kw)
+            if x is not None and not F.must_carry(f, x, kw):
+                bad.append(kw)
+    ctx.ob(R, 'multitarget_rule|args-forwarded-on-every-path', not bad,
+           f.node, 'on some path the primary rule is registered without '
+           'the caller\'s {} (replaced, not extended)'.format(
+               '/'.join(sorted(set(bad)))))
     multi = [e for e in rules if e not in main]
     ok = bool(multi) and all(
         param_of(a_(e, 0, 'target'), 'targets') and any(
@@ -520,10 +540,11 @@ def defaults(ctx):
     rm = [e for e in F.calls_to(t, 'remove', depth=1)
           if has(e.recv(), "['defaults']")]
     ok = bool(rm) and not any(has_const(e.arg(1, kw='explicit'), True)
-                              for e in rm)
+                              for e in rm) and not any(e.loops() for e in rm)
     ctx.ob(R, 'Test.__init__|removes-primary', ok, t.node,
            'test() does not remove its program from the fallback defaults '
-           '(only)')
+           '(only that one: not every built file named on its command '
+           'line)')
     ins = F.fn('bfg9000.builtins.install:install')
     ok = any(has(e.heads(), "['default']") and param_of(e.all_args(), 'args')
              for e in F.effects(ins, lambda e: True, depth=0))
